@@ -44,7 +44,7 @@ def distinct(key_mapper=None):
                     i = x.item
                     key = i
 
-                    if key_mapper:
+                    if key_mapper is not None:
                         try:
                             key = key_mapper(i)
                         except Exception as ex:
